@@ -60,6 +60,7 @@ def REQUIRED_fn(tier):  # noqa: N802
     k = len(SETTINGS_QUICK if tier == "quick" else SETTINGS_THOROUGH)
     r["exhaustive_plans"] = 2_985_984 * k
     r["feasible_plans_confirmed"] = 1
+    r["sign_flip_neighbours"] = 30000
     r["njit_oracle_cross_checked"] = 2000 * k
     return r
 
@@ -67,6 +68,7 @@ def REQUIRED_fn(tier):  # noqa: N802
 REQUIRED = REQUIRED_fn  # type: ignore
 
 _INST = {}
+_ALIAS = [0]
 
 
 def make_instance(n, cfg, matrix=None, layout="C"):
@@ -86,6 +88,18 @@ def make_instance(n, cfg, matrix=None, layout="C"):
         m = relayout(np.array(matrix, int), layout)
     inst = Instance(f"v{n}r{rounds}", m, [f"t{i}" for i in range(n)],
                     rounds, hmin, hmax, amin, amax, smin, smax)
+    if matrix is not None:
+        # every other instance is built again from an array that already has
+        # the storage type the instance selects; the caller then re-uses
+        # that buffer ("the matrix will be copied")
+        _ALIAS[0] += 1
+        if _ALIAS[0] % 2 == 0:
+            buf = np.array(matrix, dtype=inst.dtype)
+            inst = Instance(f"v{n}r{rounds}", buf,
+                            [f"t{i}" for i in range(n)], rounds, hmin, hmax,
+                            amin, amax, smin, smax)
+            buf[:, :] = buf.T.copy() * 3 + 1
+            np.fill_diagonal(buf, 7)
     if matrix is None:
         _INST[key] = inst
     return inst
@@ -323,6 +337,41 @@ def exhaustive(ctx, cfg):
                       f"count_errors = {out[idx]} for a feasible plan",
                       {"kind": "plan", "n": n, "cfg": list(cfg), "plan": p})
     ctx.count("feasible_plans_confirmed", len(feas_idx & zero))
+    # the sign-flip neighbourhood of feasible plans: negating one or two
+    # cells keeps every opponent but breaks the home/away roles (unless the
+    # two cells are the two sides of one game); such a plan is not a
+    # schedule, whatever the counts and streaks say
+    from moptipyapps.ttp.game_plan import GamePlan
+    gp = GamePlan(inst)
+    fl = sorted(feas_idx)
+    pick = [fl[int(i)] for i in rng.permutation(len(fl))[:120]]
+    cells = [(d, t) for d in range(D) for t in range(n)]
+    for idx in pick:
+        base = idx_to_plan(idx, cfgs_l, D)
+        flips = [(c,) for c in cells] + [
+            (cells[a], cells[b]) for a in range(len(cells))
+            for b in range(a + 1, len(cells))]
+        for fs in flips:
+            gp[:, :] = base
+            for (d, t) in fs:
+                gp[d, t] = -gp[d, t]
+            ctx.count("sign_flip_neighbours")
+            v = obj.evaluate(gp)
+            if v == 0:
+                pl = [[int(x) for x in row] for row in gp]
+                why = ot.infeasibility(pl, cfg)
+                if why is not None:
+                    ctx.violation(
+                        "zero-for-infeasible:roles-inconsistent",
+                        f"count_errors = 0 for a feasible plan with the "
+                        f"signs of cells {list(fs)} flipped ({why})",
+                        {"kind": "plan", "n": n, "cfg": list(cfg),
+                         "plan": pl})
+                    break
+                ctx.count("sign_flip_neighbours_still_feasible")
+        else:
+            continue
+        break
     for idx in feas_idx:
         ctx.nontrivial("feasible", cfg, idx)
     diff = np.flatnonzero(out != ora)
